@@ -57,15 +57,30 @@ Record rfk := mkRfk {
 }.
 
 (** schema.Table as the planner reads it *)
-Record tdef := mkTdef {
+Record tdef := mkTdefO {
   td_name : str;
   td_cols : list rcol;
   td_fks  : list rfk;
-  td_idx  : list str     (* names of T.Indexes *)
+  td_idx  : list str;    (* names of T.Indexes *)
+  td_strict : bool;         (* sqlx.Has(T.Attrs, &Strict{}) *)
+  td_without_rowid : bool   (* sqlx.Has(T.Attrs, &WithoutRowID{}) *)
 }.
 
-Definition set_td_name (t : tdef) (n : str) : tdef := mkTdef n (td_cols t) (td_fks t) (td_idx t).
-Definition set_td_idx (t : tdef) (l : list str) : tdef := mkTdef (td_name t) (td_cols t) (td_fks t) l.
+(** a table without options *)
+Definition mkTdef (n : str) (c : list rcol) (f : list rfk) (i : list str) : tdef := mkTdefO n c f i false false.
+
+(** [newT := *modify.T; newT.Name = ...; newT.Indexes = nil]: a shallow copy, the attributes
+    (STRICT, WITHOUT ROWID, checks) stay *)
+Definition set_td_name (t : tdef) (n : str) : tdef :=
+  mkTdefO n (td_cols t) (td_fks t) (td_idx t) (td_strict t) (td_without_rowid t).
+Definition set_td_idx (t : tdef) (l : list str) : tdef :=
+  mkTdefO (td_name t) (td_cols t) (td_fks t) l (td_strict t) (td_without_rowid t).
+
+(** migrate.go: addTable, the option clause after the closing parenthesis: WITHOUT ROWID first,
+    then STRICT *)
+Inductive topt := OWithoutRowid | OStrict.
+Definition table_options (t : tdef) : list topt :=
+  (if td_without_rowid t then [OWithoutRowid] else []) ++ (if td_strict t then [OStrict] else []).
 
 (** ** changes (sql/schema/migrate.go), as far as the SQLite planner tells them apart *)
 Inductive tchange :=
